@@ -13,7 +13,7 @@ READY = True
 LEAN_TARGETS = ["NauyacaVerif.Props.C01"]
 THEOREMS = ['NauyacaVerif.C01.render_wf', 'NauyacaVerif.C01.trace_shape', 'NauyacaVerif.C01.nothing_after_close', 'NauyacaVerif.C01.trace_progress', 'NauyacaVerif.C01.line_decides', 'NauyacaVerif.C01.lost_silent', 'NauyacaVerif.C01.fixedMetas_clean', 'NauyacaVerif.C01.pump_trace_shape', 'NauyacaVerif.C01.pump_silent_before_handshake', 'NauyacaVerif.C01.maxMeta_tie', 'NauyacaVerif.C01.maxRequest_tie']
 EXTRACT = ["maxMeta", "maxRequest", "serverWriters"]
-EXTRACT_EXPECT = {"serverWriters": ["_send_response"]}
+EXTRACT_EXPECT = {"serverWriters": ["_pump_response"]}  # every transport.write of the server protocol sits in one function
 LEVEL_TEXT = "Proved for every configuration and EVERY event list (all orderings of reads, timer, middleware/handler/upload completions of any outcome, disconnect): the output trace is empty or one well-formed response (two digits 10-69, space, meta without CR/LF <= 1024 bytes, CRLF, body only with 2x; for every status/meta/body incl. lone surrogates) followed by close, nothing after close, nothing after a disconnect, a decided request with no pending task IS answered, a complete line / >1024 bytes always decides (for every segmentation); lifted to the PyOpenSSL pump model. The correspondence compares the real GeminiServerProtocol byte-for-byte and event-by-event (when the response is written) with the model, and the real pump over memory-BIO TLS. Partial: the stdlib TLS backend is asyncio's transport (identity transport in the model); texts of exception-derived metas are only checked for well-formedness."
 LEVEL_NOTE = "Trusted: Lean kernel (axioms propext, Classical.choice, Quot.sound only); the hand-written model Srv.step/Srv.pumpStep is tied to /repo by extraction (constants, 'every transport.write sits in _send_response') and by the correspondence run of every check (fake transport with asyncio's write-after-close semantics, virtual-clock loop, scripted handlers; real PyOpenSSL pump over memory BIOs); asyncio's transport/timer contract, OpenSSL's record layer and Python exception texts are assumed, see assumptions."
 TECHNIQUE = 'Lean 4 proof (invariant induction over all event lists of an executable connection state machine) + differential correspondence with the real asyncio protocol objects under a virtual clock'
@@ -105,4 +105,71 @@ class Pump(PumpFamily):
         return self.oracle_wellformed(case, obs) or self.oracle_once(case, obs)
 
 
-FAMILIES = [Events(), Render(), Pump()]
+class Content(Family):
+    """content that flows from a document root into responses: file names that cannot be decoded or that contain
+    CR/LF, listings on/off, locations routing — through the real Router / StaticFileHandler behind the protocol.
+    No model line: the renderer theorem covers every (status, meta, body); this family checks the glue."""
+
+    name = "content"
+    quick_n = 150
+    thorough_n = 3000
+
+    def gen(self, rng: random.Random, n: int):
+        names = ["a.gmi", "index.gmi", "sp ace.txt", "caf\u00e9.gmi", "bad\udcff.gmi", "cr\rlf\n.gmi", "x" * 200 + ".gmi", "dir", "bin.dat", "%41.gmi"]
+        for _ in range(n):
+            files = rng.sample(names, rng.randint(1, 6))
+            paths = ["/", "/dir/", "/dir", "/nope", "/bad%ED%B3%BF.gmi", "/a.gmi", "/sp%20ace.txt", "/bin.dat", "/" + "y" * 300, "/%00", "/cr%0Dlf%0A.gmi", "/caf%C3%A9.gmi"]
+            yield {"files": files, "listing": rng.random() < 0.7, "path": rng.choice(paths), "routing": rng.choice(["root", "locations"]),
+                   "bin": rng.random() < 0.5}
+
+    def impl(self, case):
+        import os
+        import shutil
+        import tempfile
+
+        from nauyaca.server.handler import StaticFileHandler
+        from nauyaca.server.router import Router, RouteType
+
+        from .srvfam import get_loop
+
+        d = tempfile.mkdtemp(prefix="nv-c01-")
+        try:
+            root = os.path.join(d, "root")
+            os.makedirs(os.path.join(root, "dir"))
+            for nm in case["files"]:
+                if nm == "dir":
+                    continue
+                p = os.path.join(os.fsencode(root), os.fsencode(nm.encode("utf-8", "surrogateescape").decode("utf-8", "surrogateescape")))
+                try:
+                    with open(p, "wb") as f:
+                        f.write(b"\xff\xfe binary" if (nm.endswith(".dat") and case["bin"]) else ("# " + nm.encode("utf-8", "replace").decode()).encode())
+                    with open(os.path.join(os.fsencode(root), b"dir", os.path.basename(p)), "wb") as f:
+                        f.write(b"sub")
+                except OSError:
+                    pass
+            sh = StaticFileHandler(root, enable_directory_listing=case["listing"])
+            router = Router()
+            if case["routing"] == "locations":
+                router.add_route("/dir/", sh.handle, RouteType.PREFIX)
+            router.set_default_handler(sh.handle)
+            loop = get_loop()
+            c = {"mw": False, "up": False, "handler": ["a"], "evs": [["d", (b"gemini://h" + case["path"].encode() + b"\r\n").hex()]]}
+            o = loop.run_until_complete(sim.run_conn(loop, c, handler=router.route))
+            return {"acts": o["acts"], "exc": o["exc"]}
+        finally:
+            shutil.rmtree(d, ignore_errors=True)
+
+    def oracle(self, case, obs):
+        ok, what = sim.wellformed_trace(obs["acts"])
+        if not ok:
+            return ("malformed-response", what)
+        if not obs["acts"]:
+            return ("no-response", f"complete request for {case['path']!r} answered with nothing (exceptions: {obs['exc'][:1]})")
+        return None
+
+    def key(self, case, obs):
+        ok, what = sim.wellformed_trace(obs["acts"])
+        return f"{what}|{case['path'][:8]}|listing{int(case['listing'])}|{case['routing']}"
+
+
+FAMILIES = [Events(), Render(), Pump(), Content()]
